@@ -110,7 +110,8 @@ def correspondence(v, st, prop, cmd, model_kind, tier, seed, replay=None, profil
             if strip_model:
                 import re as _re
                 mp = os.path.join(outdir, "model.txt")
-                open(mp, "w").write("\n".join(_re.sub(strip_model, "", l) for l in open(mp).read().split("\n")))
+                txt = open(mp).read()
+                open(mp, "w").write("\n".join(_re.sub(strip_model, "", l) for l in txt.split("\n")))
             bad = vlib.diff_lines(os.path.join(outdir, "model.txt"), os.path.join(outdir, "impl.txt"))
             if bad:
                 res["dis"] += len(bad)
